@@ -1839,28 +1839,33 @@ class Pipeline:
 
         pipeline = self.copy()
 
-        input_nodes: set[str | PipeFunc] = (
-            set(pipeline.topological_generations.root_args)
-            if inputs is None
-            else {pipeline.node_mapping[n] for n in inputs}
-        )
-        output_nodes: set[PipeFunc] = (
-            set(pipeline.leaf_nodes)
-            if output_names is None
-            else {pipeline.node_mapping[n] for n in output_names}  # type: ignore[misc]
-        )
-        between = _find_nodes_between(pipeline.graph, input_nodes, output_nodes)
+        output_nodes: set[PipeFunc]
+        if output_names is None:
+            # every function downstream of the provided names
+            assert inputs is not None
+            output_nodes = {
+                node
+                for n in inputs
+                for node in nx.descendants(pipeline.graph, pipeline.node_mapping[n])
+                if isinstance(node, PipeFunc)
+            }
+        else:
+            output_nodes = {pipeline.node_mapping[n] for n in output_names}  # type: ignore[misc]
+        provided = None if inputs is None else set(inputs)
+        between = _find_nodes_between(pipeline.graph, provided, output_nodes)
         drop = [f for f in pipeline.functions if f not in between]
         for f in drop:
             pipeline.drop(f=f)
 
         if inputs is not None:
             new_root_args = set(pipeline.topological_generations.root_args)
-            if not new_root_args.issubset(inputs):
+            missing = new_root_args - set(inputs) - set(pipeline.defaults)
+            if missing:
                 outputs = {f.output_name for f in pipeline.functions}
                 msg = (
                     f"Cannot construct a partial pipeline with `{outputs=}`"
-                    f" and `{inputs=}`, it would require `{new_root_args}`."
+                    f" and `{inputs=}`, it would require `{new_root_args}`"
+                    f" (missing: `{missing}`)."
                 )
                 raise ValueError(msg)
 
@@ -2118,17 +2123,31 @@ def _traverse_graph(
 
 def _find_nodes_between(
     graph: nx.DiGraph,
-    input_nodes: set[Any],
+    provided: set[str] | None,
     output_nodes: set[Any],
 ) -> set[Any]:
-    reachable_from_inputs = set()
-    for input_node in input_nodes:
-        reachable_from_inputs.update(nx.descendants(graph, input_node))
-    reachable_to_outputs = set()
-    for output_node in output_nodes:
-        reachable_to_outputs.update(nx.ancestors(graph, output_node))
-    reachable_to_outputs.update(output_nodes)
-    return reachable_from_inputs & reachable_to_outputs
+    """The output nodes and their ancestor functions, cut at the provided names.
+
+    An edge ``producer -> consumer`` is not followed when every value the consumer
+    takes from that producer is in ``provided`` (a provided name replaces its producer).
+    Functions without parameters or with only defaulted parameters are ancestors like
+    any other function; they need not be reachable from an input.
+    """
+    keep: set[Any] = set()
+    stack = list(output_nodes)
+    while stack:
+        node = stack.pop()
+        if node in keep:
+            continue
+        keep.add(node)
+        for pred in graph.predecessors(node):
+            if not isinstance(pred, PipeFunc):
+                continue
+            names = at_least_tuple(graph.edges[pred, node]["arg"])
+            if provided is not None and all(n in provided for n in names):
+                continue
+            stack.append(pred)
+    return keep
 
 
 @dataclass(frozen=True, slots=True)
